@@ -11,6 +11,10 @@ CHECKS = {
          "bounded-exhaustive program enumeration on the real pipeline (parse, typecheck, MIR, LIR, Cranelift) against a reference interpreter: every expression/skeleton/template program of the bounded grammar x every boundary input vector",
          "Every numeric expression over all operators (all 8 integer widths, f32, f64) with every operator at every operand position of every other operator, all comparison/logic forms, COMPLETE truth tables of all depth-1 programs on all 65 536 operand pairs of u8/i8, every control-flow skeleton of up to 3 constructs (16 constructs: if/else/else-if, while, for, match with guards and `_`, block expressions, early return, short-circuit operands with effects, calls, recursion, compound assignment, shadowing) nested to depth 2, and hand-enumerated templates for arity 0-7, argument permutations over distinct types, self/mutual recursion and every literal-typing context x every numeric type; each program is compiled through the public API and called on the boundary cross product; value and host-call log must equal the reference interpreter c00ref. Exhaustive within the bounds; thorough widens to full depth-2 products and size-4 skeletons.",
          "Programs larger than the bound and operand values strictly between boundary values of >=32-bit types are not enumerated; the reference interpreter (c00ref, ~700 lines) is trusted; x86-64 only."),
+ "C02": ("4/C02",
+         "bounded-exhaustive program enumeration over field layouts: every layout x 14 type shapes x a fixed family of copy / write / compare / match programs, compiled on the real pipeline and compared with the reference interpreter's host-call log, plus a ledger oracle for tracked fields",
+         "Every sequence of <= 3 field types over the size/alignment classes {u8, u32, u64, (), String, Tr} (258 layouts; thorough: 16 classes / 4 fields) as named record, generic record in both orientations, anonymous record, payload of 1-3 variant enums, generic enum, Option, Result and Verdict; for each type 15-30 programs with distinct sentinel values per field: construct, copy by let / assignment / argument / return / outer record (nested write a.b.c) / Some / list element / match binding / ?, then write one field (each in turn) through ONE name and emit every component of EVERY name; == and != with none or exactly one differing component; guarded matches and `_` arms reading each payload position; list-typed fields pushed / swapped through one copy and observed through the other, incl. push inside a for over the same list. Log and value must equal the reference interpreter (value semantics for everything but lists); the ledger of tracked fields must balance.",
+         "Only Option[u32] is returned to Rust directly (other aggregates are observed per component through host calls; Rust-side layouts are C05's subject); programs beyond the family."),
  "C03": ("4/C03",
          "bounded-exhaustive program enumeration on the real pipeline with a drop-tracking ledger and a counting allocator as oracles: every statement body over every control-flow construct x every ownership form in every expression hole x entry signatures x path-steering inputs",
          "All statement bodies of up to 2 statements (thorough 3) over 28 statement forms (discard, let, reassign, consume, field overwrite, constructors, list operations, strings, if/else and while with owned temporaries in the condition, for, match with owned guard temporaries and `_` arms, early return/reject, `?`, block values, short-circuit operands, early exit in the middle of a record / enum / list / call-argument / method-argument construction) nested to depth 2, each expression hole filled by rotation with 10 ownership forms of a drop-tracked host value, under 6 entry signatures (plain, tracked argument, tracked return, Option return with `?`, filtermap, String+List arguments), called 4 times on each of 16 input vectors; after every call the ledger of live tracked values must be unchanged, with no double drop, no clone of a dead value, no drop of never-initialised memory, and the live heap block count must be steady (strings, lists).",
@@ -19,6 +23,10 @@ CHECKS = {
          "exhaustive enumeration of (script signature, requested Rust signature) pairs through the public Package::get_function against an independent structural type-equality oracle",
          "One generated package declares a function for every type of a 588-type grammar (20 leaves, Option/List/Result/Verdict nestings to depth 2), 57 filtermaps, all arity signatures up to 7 (plus 8/9), shadowing declarations, tests and 1 300+ compiler-generated helpers; EVERY target is requested under EVERY one of 365 Rust function types (663 116 decisions quick, 2.96 M thorough): Ok iff the descriptors are structurally equal, never a panic; diagonal handles are called once.",
          "Rust-side nesting depth is bounded by rustc instantiation time (depth 2); types that cannot be named outside the crate are not reachable; descriptor oracle (Desc trait) trusted."),
+ "C05": ("4/C05",
+         "exhaustive enumeration of boundary types x edge values x routes across the host boundary (Rust<->script argument positions 1..7, returns, host calls, constants, context fields in all field orders, script-constructed / script-matched enums, script-computed small integers), structural equality of what arrives with what was sent",
+         "112 boundary types (the 20 leaves, Option / List over one representative per size/alignment class, Result / Verdict pairs, 38 depth-2 nestings) x their exhaustive edge values (ALL 256 values of 8-bit types, boundary sets otherwise, every variant x payload edge, lists of length 0/1/4/5) x EVERY route: argument at each of the 7 positions with fillers of other size classes (each register and stack slot), script literal returned, script->host argument at each position, host->script return, registered constant, context field for 125 context structs (5 field sets x all 24 orders + default layout), enums built in the script from Rust payloads and Rust-built enums matched in the script, and script-computed 8/16-bit integers and bools handed to widening host functions built at opt-level 3 (all 65 536 8-bit operand pairs).",
+         "Nesting depth 2; table thinned by size class, never by route; small integers in stack-slot positions of host calls are not observable with optimised host code; x86-64 SysV ABI."),
  "C06": ("4/C06",
          "bounded-exhaustive input enumeration (token sequences, untyped expression trees, type expressions, deviation-bounded mutations of valid seeds, module trees) through the public compile API with a totality oracle; stack-overflow candidates are probed in a forked copy of the worker",
          "All token sequences of length <= 2 (thorough 3) over the 75-token alphabet in 3 wrappers, all untyped expressions over every ast::Expr form (49 atoms x 140 one-hole templates, 6 positions), all type expressions to depth 2, every single-character deletion/insertion/truncation and single-token replacement of 36 seeds (thorough: deviation 2 on micro seeds), all texts over a multi-byte alphabet in 53 position kinds, and module trees of <= 3 files in memory and on disk: compile returns a package or a report, never a panic/abort/stack overflow/hang; the report renders with and without colour and every cited location lies in its file on character boundaries.",
